@@ -140,9 +140,12 @@ class Ctx:
                 if not os.path.exists(p):
                     self.lean_problems.append("driver %s was not built" % d)
                     continue
-                snap = os.path.join(self.work, d)
-                shutil.copy2(p, snap)
-                self.driver_bin[d] = snap
+                snap = os.path.join(self.work, "%s.%d" % (d, os.getpid()))
+                try:
+                    shutil.copy2(p, snap)
+                    self.driver_bin[d] = snap
+                except OSError:
+                    pass  # fall back to the shared binary
 
     def _factgen(self):
         src = os.path.join(GO, "cmd", "factgen")
@@ -585,6 +588,11 @@ class Ctx:
     # ------------------------------------------------------------------ verdict
     def finish(self):
         wall = time.time() - self.t0
+        for snap in self.driver_bin.values():
+            try:
+                os.remove(snap)
+            except OSError:
+                pass
         obligations = len(self.theorems)
         discharged = sum(1 for t in self.theorems if t["ok"])
         concrete = [v for v in self.violations if v.get("concrete")]
